@@ -536,7 +536,7 @@ package transaction
 //@   ensures result != nil ==> result.Code != 0
 //@   modifies coinsCache
 //@ func (LockData).Run
-//@   serves C16 C03 C04 C05 C27 C02
+//@   serves C16 C03 C04 C05 C27 C02 C01
 //@   implements iface Data.Run
 //@   assumes wf: data.Value != nil && data.Value.val >= 0 && data.Value != rewardPool
 //@   assumes typed: tx.Type == TypeLock
@@ -544,7 +544,7 @@ package transaction
 //@   let ff = st.FrozenFunds
 //@   let m = ffModel(ff, data.DueBlock)
 //@   let n = old(ffModel(ff, data.DueBlock)) == nil ? 0 : old(len(ffModel(ff, data.DueBlock).List))
-//@   ensures [C16] due: result.Code == 0 ==> data.DueBlock > currentBlock
+//@   ensures [C16,C01] due: result.Code == 0 ==> data.DueBlock > currentBlock
 //@   ensures [C16] frozen: result.Code == 0 && deliver ==> m != nil && len(m.List) == n + 1 && m.List[n].Address == snd && m.List[n].CandidateKey == nil && m.List[n].Coin == data.Coin && m.List[n].Value == data.Value && len(m.List[n].MoveToCandidate) == 0
 //@   ensures [C16] otherheights: forall h int :: h != data.DueBlock ==> ffModel(ff, h) == old(ffModel(ff, h))
 //@   ensures [C16] kept: result.Code == 0 && deliver ==> forall i int :: 0 <= i && i < n ==> m.List[i] == old(ffModel(ff, data.DueBlock).List[i])
